@@ -14,7 +14,18 @@ impl Flags {
         assert forall|i: u8| 0 <= i < 8 implies !#[trigger] bit(0u8, i) by { assert((0u8 >> i) & 1 == 0) by(bit_vector); }
         Flags { bits: 0 } }
     pub fn bits(&self) -> (r: u8) ensures r == self.bits { self.bits }
-    pub fn contains(&self, o: Flags) -> (r: bool) ensures r == (self.bits & o.bits == o.bits) { self.bits & o.bits == o.bits }
+    pub fn contains(&self, o: Flags) -> (r: bool)
+        ensures r == (self.bits & o.bits == o.bits),
+                forall|k: u8| 0 <= k < 8 && o.bits == (1u8 << k) ==> r == self.has(k),
+    {
+        proof {
+            let a = self.bits;
+            assert forall|k: u8| 0 <= k < 8 && o.bits == (1u8 << k) implies ((a & o.bits == o.bits) == bit(a, k)) by {
+                assert(k < 8 ==> (((a & (1u8 << k)) == (1u8 << k)) == ((a >> k) & 1 == 1))) by(bit_vector);
+            }
+        }
+        self.bits & o.bits == o.bits
+    }
 }
 impl vstd::std_specs::ops::BitOrAssignSpecImpl for Flags {
     open spec fn obeys_bitor_assign_spec() -> bool { true }
